@@ -69,7 +69,7 @@ Ready(n, st, c) ==
         recs0 == IF becameLeader THEN <<>> ELSE n.rn.records
         hs == HSOf(n)
         hasHS == hs # n.rn.prevHS
-        tvChanged == hasHS /\ (hs.vote # n.rn.prevHS.vote \/ hs.term # n.rn.prevHS.term)
+        tvChanged == hasHS /\ ((hs.vote # n.rn.prevHS.vote /\ ~Ab("MustSyncOnVoteChange")) \/ hs.term # n.rn.prevHS.term)
         hasSS == n.lead # n.rn.prevLead \/ n.role # n.rn.prevRole
         hasSnap == HasUSnap(n)
         cs1 == IF hasSnap THEN n.log.usnap.i ELSE n.rn.commitSince
@@ -79,7 +79,9 @@ Ready(n, st, c) ==
                 li |-> IF ents # <<>> THEN Last(ents).i ELSE 0, lt |-> IF ents # <<>> THEN Last(ents).t ELSE 0,
                 si |-> IF hasSnap THEN n.log.usnap.i ELSE 0, st |-> IF hasSnap THEN n.log.usnap.t ELSE 0]
         uhs == IF tvChanged THEN number ELSE n.rn.uhs
-        persistedMsg == n.role # "L" \/ uhs # 0
+        mustSync0 == tvChanged \/ hasSnap \/ ents # <<>>
+        persistedMsg == IF Ab("FollowerMessagesWaitForPersist") /\ n.role = "F" THEN mustSync0
+                        ELSE n.role # "L" \/ (uhs # 0 /\ ~Ab("LeaderMessagesWaitForOwnHardState"))
         n1 == [n EXCEPT !.rn.maxNumber = number, !.rn.commitSince = cs1, !.rn.uhs = uhs, !.readStates = <<>>]
         g == GenLightReady(n1, st, c)
         n2 == [g.n EXCEPT !.rn.records = Append(recs0, rec)]
